@@ -7,7 +7,9 @@ status, type, data -- compared as decoded reply dicts and as raw bytes) and fina
 the bundle status is 0x00, and the strict reference decoder must accept the bundle's offset table
 (first offset 2+2N, each next advanced by the previous member's length, last member ends at the end).
 Request side: the library's own producer must regenerate the reference encoder's bundle bytes (tiling
-offset table) from the parsed bundle.
+offset table) from the parsed bundle.  Client view (clause 'client'): the same request list through cpppo's own
+client over TCP, unbundled (multiple=0) vs. bundled: the (status, value) the client reports per request and the
+final tag state must be identical.
 """
 from __future__ import annotations
 
@@ -196,14 +198,59 @@ def pred(case, stats):
         dev.close()
 
 
-CLAUSES = {'bundle': pred}
-STRATEGIES = {'bundle': lambda k: cases(k)}
+# ------------------------------------------------------------------------------------------------
+# client view: the same requests through cpppo's own client, unbundled vs. bundled (results as the client reports them)
+
+
+@st.composite
+def client_cases(draw, k):
+    from . import c12
+    ops = draw(st.lists(c12.oper(), min_size=2, max_size=k))
+    for op in ops:
+        op['route'] = 0
+        op['send'] = 0
+    return {'ops': ops, 'multiple': draw(st.sampled_from([250, 500, 4000]))}
+
+
+def pred_client(case, stats):
+    from . import c12
+    srv = c12.server()
+    ops = case['ops']
+    probe = M.Model(c12.SPECS)
+    kinds = ['noattr' if op.get('unknown_attribute') else M.expect(probe, op)['kind'] for op in ops]
+    failing = [k in ('range', 'type', 'noattr', 'fail') for k in kinds]
+    stats.case(case, nontrivial=any(failing) and not all(failing) and any(failing[1:]),
+               classes=['client:members:%d' % min(len(ops), 6), 'client:some-fail' if any(failing) else 'client:none-fail'] +
+                       (['client:failing-member-after-succeeding-one'] if any(f and not all(failing[:i]) for i, f in enumerate(failing) if i) else []))
+    seqs = {}
+    for multiple in (0, case['multiple']):
+        results, bundles, reqids, cops, err = c12.run_setting(srv, ops, False, 0, multiple)
+        if err is not None or len(results) != len(ops):
+            stats.fail('client', 'client:results-missing', case, observed={'multiple': multiple, 'error': err, 'results': len(results)},
+                       expected='one result per request in both modes')
+            return
+        seqs[multiple] = ([(r[0], r[1]) for r in results], srv.snapshot(), bundles)
+    a, b = seqs[0], seqs[case['multiple']]
+    if a[0] != b[0]:
+        first = [i for i, (x, y) in enumerate(zip(a[0], b[0])) if x != y][0]
+        stats.fail('client', 'client:bundled-result-differs-from-single', case,
+                   observed={'index': first, 'op': ops[first], 'single': common.jsonable(a[0][first]), 'bundled': common.jsonable(b[0][first])},
+                   expected='the client reports the same (status, value) for a request whether it was bundled or not')
+    if a[1] != b[1]:
+        stats.fail('client', 'client:final-state-differs', case, observed={'tags': [n for n in a[1] if a[1][n] != b[1][n]]}, expected='same tag state')
+    if any(n >= 2 for n, _, _, _ in b[2]):
+        stats.count('client:bundles-with-2+-members')
+
+
+CLAUSES = {'bundle': pred, 'client': pred_client}
+STRATEGIES = {'bundle': lambda k: cases(k), 'client': lambda k: client_cases(k)}
 
 
 def shard(job):
     seed, i, n, k = job
     s = Stats()
     common.hyp_run(s, cases(k), pred, n, common.shard_seed(seed, i), 'bundle', PID, skey=k)
+    common.hyp_run(s, client_cases(k), pred_client, max(4, n // 5), common.shard_seed(seed, i) + 5, 'client', PID, skey=k)
     return s
 
 
